@@ -97,7 +97,7 @@ def render_job(case, full=True, cpu=None):
         "limit": case["limit"],
         "async": bool(case.get("async")),
         "full": full,
-        "cpu_limit": cpu if cpu is not None else case.get("cpu", 20.0),
+        "cpu_limit": cpu if cpu is not None else case.get("cpu", 5.0),
     }
 
 
@@ -215,7 +215,7 @@ class DepthStream(Stream):
         # suppress_blank_control_flow_blocks off: `BlockNode.render_to_output` then always takes its `sum(<genexpr>)`
         # path (5 frames per block level, the constant of the model); with the flag on, a block whose children are all
         # "blank" (capture, macro, assign…) is rendered by a plain loop, one frame less per such level
-        r = run_job(dict(render_job(case, full=True, cpu=15.0), suppress_blank=False), flavour="hi", wall_limit=240.0)
+        r = run_job(dict(render_job(case, full=True, cpu=20.0), suppress_blank=False), flavour="hi", wall_limit=300.0)
         evs = r.get("evs") or []
         return {
             "out": r["out"],
@@ -263,7 +263,7 @@ class DepthStream(Stream):
 
     def shrink_candidates(self, case):
         # templates only (names, mode and limit stay); few candidates: a hanging candidate costs the whole CPU limit
-        for i, c in enumerate(limited_shrinks(case["templates"], 12)):
+        for i, c in enumerate(limited_shrinks(case["templates"], 6)):
             if c and all(isinstance(t, list) and len(t) == 2 and isinstance(t[0], str) and isinstance(t[1], list) for t in c) and any(t[0] == case["main"] for t in c):
                 yield dict(case, templates=c)
 
@@ -397,7 +397,7 @@ class ParseStream(Stream):
     def impl(self, case):
         from ..impl.c09_run import run_job
 
-        r = run_job({"kind": "parse", "model": True, "source": case["source"], "mode": case["mode"], "block_limit": case["block_limit"], "cpu_limit": 20.0}, "std", 120.0)
+        r = run_job({"kind": "parse", "model": True, "source": case["source"], "mode": case["mode"], "block_limit": case["block_limit"], "cpu_limit": 5.0}, "std", 120.0)
         return {k: r.get(k) for k in ("out", "liquid", "tokens", "ntokens", "pos", "skeleton", "cpu_s")}
 
     def line_obs(self, case, obs):
@@ -546,7 +546,7 @@ class FamilyStream(Stream):
     def impl(self, case):
         from ..impl.c09_run import run_job
 
-        job = render_job(case, full=False, cpu=case.get("cpu", 20.0))
+        job = render_job(case, full=False, cpu=case.get("cpu", 5.0))
         r = run_job(job, flavour="std", wall_limit=300.0)
         return {"out": r["out"], "liquid": r.get("liquid"), "n": r.get("n"), "max_frames": r.get("max_frames"), "abs_base": r.get("abs_base")}
 
@@ -683,7 +683,7 @@ class SourceStream(Stream):
                 src, rep = NESTED[case["nested"]](max(1, case["n"] // scale)), 1
             else:
                 src, rep = case["source"], max(1, case.get("repeat", 1) // scale)
-            return run_job({"kind": "parse", "source": src, "repeat": rep, "mode": case["mode"], "extra": True, "cpu_limit": 30.0}, "std", 300.0)
+            return run_job({"kind": "parse", "source": src, "repeat": rep, "mode": case["mode"], "extra": True, "cpu_limit": 20.0}, "std", 300.0)
 
         r = one(1)
         obs = {"out": r["out"], "liquid": r.get("liquid"), "cpu_s": r.get("cpu_s"), "len": r.get("len")}
@@ -717,14 +717,16 @@ class SourceStream(Stream):
 
     def shrink_candidates(self, case):
         for k in ("repeat", "n"):
-            if k in case and case[k] > 10:
-                c = dict(case)
-                c[k] = case[k] // 2
-                yield c
+            if k in case and case[k] > 16:
+                for div in (16, 4, 2):
+                    c = dict(case)
+                    c[k] = case[k] // div
+                    yield c
 
 
 def streams(ctx):
-    return [DepthStream(), ParseStream(), FamilyStream(), SourceStream()]
+    # families first: when a mutation makes recursion hang, its violations are the cheapest to shrink
+    return [FamilyStream(), SourceStream(), ParseStream(), DepthStream()]
 
 
 RULE = (
